@@ -172,6 +172,14 @@ RESULTS = {
                      lib_out="vt_str(rv.c_str(), (long)rv.size());", c_decl="const char *rv;", c_out="vt_str(rv, -1);"),
     "pt": dict(yaml="Pt", cxx="Pt", ty="pt", lib_make="Pt rv; rv.x = (int)(acc % 1000); rv.y = 0.25 * (double)(acc % 7);",
                lib_out="{ int t_[2] = { rv.x, (int)(rv.y * 4) }; vt_arr_int(t_, 2); }", c_decl="{PT} rv;", c_out="{ int t_[2] = { rv.x, (int)(rv.y * 4) }; vt_arr_int(t_, 2); }"),
+    # +deref(raw) (docs/pointers.rst): the Fortran result is the bare type(C_PTR); its value is not part of the
+    # contract checked here (ty none), what matters is that the arguments still get their conversions
+    "cptr_raw": dict(yaml="void *", attrs=" +deref(raw)", cxx="void *", ty="none", returns=True,
+                     lib_make="static long cell_; cell_ = acc; void *rv = &cell_;", c_decl="", c_out=""),
+    # the same attribute on a character result (only used by C05's documented-combinations library)
+    "cstr_raw": dict(yaml="const char *", attrs=" +deref(raw)", cxx="const char *", ty="none", returns=True,
+                     lib_make='static char raw_[8]; raw_[0] = (char)(65 + acc % 26); raw_[1] = 0; const char *rv = raw_;',
+                     c_decl="", c_out=""),
     # pointer result with a declared extent (docs/pointers.rst): a Fortran pointer to the library's memory
     "iptr3": dict(yaml="int *", attrs=" +dimension(3)", cxx="int *", ty="arri",
                   lib_make="static int arr_[3]; arr_[0] = (int)(acc % 100); arr_[1] = arr_[0] + 1; arr_[2] = -arr_[0]; int *rv = arr_;",
@@ -298,6 +306,7 @@ FRESULTS = {
     "str_cref": dict(decl="character(len=:), allocatable :: rv", fout="call vt_str(rv, len(rv, kind=C_LONG))"),
     "pt": dict(decl="type(pt) :: rv", fout="call vt_arr_int([rv%x, int(rv%y * 4, C_INT)], 2_C_LONG)"),
     "iptr3": dict(decl="integer(C_INT), pointer :: rv(:)", fout="call vt_arr_int(rv, size(rv, kind=C_LONG))", ptr=True),
+    "cptr_raw": dict(decl="type(C_PTR) :: rv"),
 }
 
 
@@ -307,6 +316,7 @@ def vector_cases():
             F("v2", "void", [P("vec_inout", "v")]),
             F("v3", "int", [P("int_v", "k"), P("vec_out_alloc", "v")]),
             F("v4", "iptr3", [P("int_v", "k")]),
+            F("v10", "cptr_raw", [P("str_cref", "s"), P("str_ref_inout", "t"), P("int_v", "k")]),
             F("v9", "int", [P("vec_inout_alloc", "v"), P("int_v", "k")]),
             F("v5", "double", [P("vec_in", "a"), P("vec_inout", "b"), P("vec_out_alloc", "c")]),
             # fortran_generic: one C++ function, a generic interface with one specific per listed declaration
